@@ -317,6 +317,39 @@ CLAIMED["C06"]["text"] += (" Schema marker (Engine F): the frozen constant SCHEM
 for _p in ("C03", "C09", "C11", "C13", "C15", "C18"):
     CLAIMED[_p]["note"] += (" Validator ranges cited as preconditions are tied to the code by the clauses validator-range-enforced:<path> "
                             "(the normaliser rejects values outside the cited range; message-level check).")
+
+# ---- additions of the extension round (round-4 seeds)
+CLAIMED["C17"]["text"] += (" Stage-side clamps: _derive_budgets (the slice budgets are exactly the configured scheduler.budgets entries, "
+    "int-converted, None/absent left out, plus quantum_ms default 20; every JSON-like cfg), the use-only clamp of t2_semantic (region: used "
+    "hits = leading min(max(cap,0), n) hits, all hits without a cap), the hand-over of the t3_ops cap into the plan bundle (assemble_bundle "
+    "region), T1's slice clamps (t1_propagate region, shared with C12) and the planner's min(per-turn, per-slice) op cap (deliberate, shared "
+    "with C13); Engine-F: yields only at stage boundaries, slice budgets removed when the scheduler is off.")
+CLAIMED["C17"]["note"] = CLAIMED["C17"]["note"].replace(" Stage-side budget clamps and run_turn yield sites are not covered by this check yet.",
+    " _get_cfg (namespace flattening) is an assumed contract in _derive_budgets; the per-graph summing of T1 counters before the yield test is not under contract.")
+CLAIMED["C12"]["text"] += (" The spreading rule is stated at cut points of the propagation loop (proved on every path, perf caps off and on): a popped "
+    "entry is left unexpanded only when visited / layer cap / node budget / no out-edges / every out-edge beyond the radius or layer cap; an "
+    "out-edge is passed over only beyond those caps or when |w x weight x multiplier x decay| < EPS; the contribution added is "
+    "w x weight x multiplier(rel, default 0.6) x decay.")
+CLAIMED["C04"]["text"] += (" In on-apply mode every configured namespace is invalidated on every committed turn, whatever the store calls "
+    "answered (only a raising cache manager cuts the walk short).")
+CLAIMED["C05"]["text"] += (" Half (i), consumer side: no value shared with the T1 cache (the per-graph result list that is stored / returned on a "
+    "hit) is mutated or adopted as a mutable accumulator by t1_propagate (sequential loop and parallel merge).")
+CLAIMED["C06"]["text"] += (" write_snapshot's meta-sync block (region, structural anchor): after re-keying, gel.meta.edges_count is the size of "
+    "the re-keyed edge map and the schema tag is present (meta present / absent), which is what the loader recomputes -- second half of the "
+    "write-load-write fixpoint for graphs whose edges merge under re-keying. Discovery orders state_*.json / *.json candidates by the raw "
+    "modification time (Engine F).")
+CLAIMED["C01"]["text"] += (" Snapshot discovery orders mtime-ranked candidates by the raw modification time (a truncated key would let "
+    "wall-clock speed decide which snapshot a boot loads).")
+CLAIMED["C02"]["text"] += (" Value flow: the persistence layer (clematis/engine/snapshot.py, which runs whatever the gates say) reads no "
+    "validator-accepted key of the graph / perf / scheduler subtrees (accepted-key sets read from configs/validate.py on every run).")
+CLAIMED["C10"]["text"] += (" The capture path of a compute phase is under contract too (shared with C16): LogMux.write/dump/clear (append in "
+    "call order, never raises, no capacity), append_jsonl and write_or_buffer (captured xor written; the captured record is an owned copy of "
+    "the caller's dict -- one defect repaired in /repo), flush (every pair once, in order).")
+CLAIMED["C16"]["text"] += (" Capture ownership (Engine F): append_jsonl and write_or_buffer hand an active LogMux an owned copy of the record "
+    "(write_or_buffer did not: repaired in /repo).")
+CLAIMED["C11"]["text"] += (" items_for_fusion: one fusion candidate per hit, in order, id/text carried, surrogate score total - rank (a hit that "
+    "is not made a candidate would disappear from the reranked list).")
+CLAIMED["C11"]["note"] = CLAIMED["C11"]["note"].replace("apply_quality composition", "apply_quality composition (only its input adapter items_for_fusion is under contract)")
 PENDING_REASON = "check not built yet (construction in progress, see DESIGN.md section 3)"
 NA = {}
 
